@@ -100,6 +100,62 @@ def leaf_str(e):
     return None
 
 
+def read_side_names(ctx, rule):
+    """File names the archive reader opens: index_filename / index2_filename / dat_filename as string expressions read off
+    the MIR, every formatted argument identified by provenance (shared: C15 TEMPLATE states them, C01 NAMING relies on
+    them to open the files a path designates)."""
+    from ..prov import derive as _derive, index_of as _index_of
+    from ..strx import StrX, show as sshow
+
+    prog = ctx.prog
+
+    def calls_of(d):
+        return {c_.split("::")[-1] for c_ in d.calls}
+
+    read_tbl = [
+        ("platform", lambda d: "get_platform_string" in calls_of(d) and "platform" in d.names),
+        ("expansion", lambda d: "expansion" in calls_of(d)),
+        ("index_filename", lambda d: "index_filename" in calls_of(d)),
+        ("category", lambda d: d.params == {3} and not (calls_of(d) & {"expansion", "get_platform_string"})),
+        ("chunk", lambda d: d.params == {2}),
+        ("data_file_id", lambda d: d.params == {4}),
+    ]
+
+    def roles(b, pcs):
+        ix = _index_of(b)
+        out = []
+        for p_ in pcs:
+            if p_[0] == "lit":
+                out.append(("lit", p_[1]))
+            elif p_[0] in ("arg", "opaque"):
+                op_ = p_[3] if p_[0] == "arg" else p_[1]
+                d = _derive(ix, op_) if op_ is not None else None
+                r = next((name for name, pred in read_tbl if d is not None and pred(d)), "?")
+                out.append((r, p_[1], p_[2]) if p_[0] == "arg" else (r, "opaque", None))
+            else:
+                out.append((p_[0],))
+        return out
+
+    bodies = {}
+    for fn in ("index_filename", "index2_filename", "dat_filename"):
+        b = prog.body("repository::Repository::" + fn)
+        if not b:
+            ctx.fail_closed(rule, f"repository::Repository::{fn} not found")
+            return
+        bodies[fn] = (b, StrX(b).returned())
+    W2X, W2, PLAIN = (2, 16, True), (2, 10, True), (0, 10, False)
+    want_i = [("category", "lower_hex", W2X), ("expansion", "display", W2), ("chunk", "display", W2), ("lit", "."), ("platform", "display", PLAIN), ("lit", ".index")]
+    want_d = want_i[:-1] + [("lit", ".dat"), ("data_file_id", "display", PLAIN)]
+    ib, ipc = bodies["index_filename"]
+    dbb, dpc = bodies["dat_filename"]
+    i2b, i2pc = bodies["index2_filename"]
+    ir, dr, i2r = roles(ib, ipc), roles(dbb, dpc), roles(i2b, i2pc)
+    ctx.ob(rule, "index-name", ir == want_i, f"index_filename = {sshow(ipc)!r} of {[x[0] for x in ir if x[0] != 'lit']}; must be {{category:02x}}{{expansion:02}}{{chunk:02}}.{{platform}}.index", ib.file, ib.line, sample=True)
+    ctx.ob(rule, "dat-name", dr == want_d, f"dat_filename = {sshow(dpc)!r} of {[x[0] for x in dr if x[0] != 'lit']}; must be {{category:02x}}{{expansion:02}}{{chunk:02}}.{{platform}}.dat{{id}}", dbb.file, dbb.line)
+    ok_i2 = i2r == want_i[:-1] + [("lit", ".index2")] or (len(i2r) == 2 and i2r[0][0] == "index_filename" and i2r[1] == ("lit", "2") and (i2r[0][1] == "opaque" or i2r[0][2] == PLAIN))
+    ctx.ob(rule, "index2-name", ok_i2, f"index2_filename = {sshow(i2pc)!r}; must be index_filename + '2'", i2b.file, i2b.line)
+
+
 def run(ctx):
     prog = ctx.prog
     ctx.decided("supported-tribe table is a partition of the 16 tribes equal to the reference (8 races)")
